@@ -12,7 +12,7 @@ theorem asBase_guards {b : Base} {v : PyVal} {x : BVal} (h : asBase b v = some x
     v.isBool = false ∧ ¬ (b = .int ∧ v.isNonIntegralFloat = true) := by
   cases b <;> cases v <;> simp [asBase, PyVal.isBool, PyVal.isNonIntegralFloat] at h ⊢
   · rename_i y
-    cases y <;> simp [asBase, PyVal.isNonIntegralFloat] at h ⊢
+    cases y <;> simp at h ⊢
     exact h.1
 
 /-- behind the guards, `base(v)` succeeds exactly on the values that denote a number of the base type,
@@ -52,7 +52,7 @@ theorem asBase_toPy {b : Base} {v : PyVal} {x : BVal} (h : asBase b v = some x) 
   cases b <;> cases v <;> simp [asBase] at h
   · subst h; simp [BVal.toPy, asBase]
   · rename_i y
-    cases y <;> simp [asBase] at h
+    cases y <;> simp at h
     obtain ⟨_, rfl⟩ := h
     simp [BVal.toPy, asBase]
   · obtain ⟨n, _, rfl⟩ := h
@@ -78,10 +78,10 @@ theorem validateNum_iff (b : Base) (rs : List Restr) (j : Join) (v : PyVal) (x :
         | error e => simp [hc] at h
         | ok vv =>
           simp only [hc] at h
-          split at h
-          · simp at h
-          · rename_i hj
-            simp only [Except.ok.injEq] at h
+          by_cases hj : (j = .and ∧ ¬ (checks rs vv).all id = true) ∨ (j = .or ∧ ¬ (checks rs vv).any id = true)
+          · simp only [hj, ↓reduceIte] at h
+            cases h
+          · simp only [hj, ↓reduceIte, Except.ok.injEq] at h
             subst h
             exact ⟨(castBase_iff_asBase hb' hn).mp hc, (joinSat_iff j rs vv).mpr hj⟩
   · rintro ⟨ha, hj⟩
